@@ -436,7 +436,18 @@ Fixpoint take_root (c : chip) (f : list rtree) : option (rtree * list rtree) :=
       else match take_root c f' with Some (r, f'') => Some (r, t :: f'') | None => None end
   end.
 
-Fixpoint splice (child : chip) (child_chips : list chip) (last : chip) (ld : Z)
+(* the same search over every node of `lookup` (the code since fix c75fe85: `for node in
+   itervalues(lookup)`): the first tree of the forest in which some node has it as a child *)
+Fixpoint forest_sever_any (c : chip) (f : list rtree) : list rtree :=
+  match f with
+  | [] => []
+  | t :: f' => match sever c t with Some t' => t' :: f' | None => t :: forest_sever_any c f' end
+  end.
+
+(* [sev child c f]: how the overlapped node c is cut from its parent.  The code as it is now searches all
+   nodes; the code as found searched only the nodes still below lookup[child] (kept for the refutation) *)
+Fixpoint splice_gen (sev : chip -> chip -> list rtree -> list rtree)
+         (child : chip) (child_chips : list chip) (last : chip) (ld : Z)
          (path : list (Z * chip)) (f : list rtree) : result (list rtree) :=
   match path with
   | [] =>
@@ -450,19 +461,23 @@ Fixpoint splice (child : chip) (child_chips : list chip) (last : chip) (ld : Z)
   | (d, c) :: rest =>
       if negb (chip_mem c child_chips) then
         if chip_mem c (forest_chips f) then OtherError          (* assert "Cycle created." *)
-        else splice child child_chips c d rest (forest_attach last (Some ld, RNode c []) f)
+        else splice_gen sev child child_chips c d rest (forest_attach last (Some ld, RNode c []) f)
       else
         match forest_find c f with
         | None => OtherError                                    (* KeyError *)
         | Some sub =>
-            splice child child_chips c d rest
-                   (forest_attach last (Some ld, sub) (forest_sever child c f))
+            splice_gen sev child child_chips c d rest
+                       (forest_attach last (Some ld, sub) (sev child c f))
         end
   end.
 
+Definition sever_now (child c : chip) (f : list rtree) : list rtree := forest_sever_any c f.
+Definition sever_orig (child c : chip) (f : list rtree) : list rtree := forest_sever child c f.
+
 Definition diff_chips (a b : list chip) : list chip := filter (fun c => negb (chip_mem c b)) a.
 
-Fixpoint repair_all (m : rmachine) (wrap : bool) (broken : list (chip * chip)) (f : list rtree)
+Fixpoint repair_all_gen (sev : chip -> chip -> list rtree -> list rtree)
+         (m : rmachine) (wrap : bool) (broken : list (chip * chip)) (f : list rtree)
   : result (list rtree) :=
   match broken with
   | [] => Ok f
@@ -475,17 +490,25 @@ Fixpoint repair_all (m : rmachine) (wrap : bool) (broken : list (chip * chip)) (
           match path with
           | [] => OtherError
           | (d0, c0) :: rest_path =>
-              bind (splice child cc c0 d0 rest_path f) (fun f' => repair_all m wrap rest f')
+              bind (splice_gen sev child cc c0 d0 rest_path f)
+                   (fun f' => repair_all_gen sev m wrap rest f')
           end)
       end
   end.
 
 (* [order]: the iteration order of the set broken_links (None: discovery order) *)
-Definition avoid_dead_links (root : rtree) (m : rmachine) (wrap : bool)
+Definition avoid_dead_links_gen (sev : chip -> chip -> list rtree -> list rtree)
+           (root : rtree) (m : rmachine) (wrap : bool)
            (order : option (list (chip * chip))) : result (list rtree) :=
   bind (copy_and_disconnect root m) (fun fb =>
   let '(f, broken) := fb in
-  repair_all m wrap (match order with Some o => o | None => broken end) f).
+  repair_all_gen sev m wrap (match order with Some o => o | None => broken end) f).
+
+Definition splice := splice_gen sever_now.
+Definition repair_all := repair_all_gen sever_now.
+Definition avoid_dead_links := avoid_dead_links_gen sever_now.
+(* the code as found in the snapshot (before c75fe85) *)
+Definition avoid_dead_links_orig := avoid_dead_links_gen sever_orig.
 
 (* ------------------------------------------------------------------------------------------------
    route(): one net *)
